@@ -1586,6 +1586,22 @@ async function main() {
     console.log(`HARNESS-ERROR: ${stalled.length} run(s) stalled in a worker but completed alone`);
     process.exit(2);
   }
+  // C16 states no time bound, and a print of a densely mutually recursive module (flat schema(), or the hash() a
+  // discriminated union takes to name its variants) unfolds every simple path through the named types - the open
+  // known finding KF-C13-1. A confirmed stall on a module with that feature (at least 100 000 simple paths from one
+  // of the parsers the run prints) is attributed to it; any other stall is a violation.
+  if (confirmedStall && prop === "C16") {
+    try {
+      const mods = await loadModules();
+      const m = mods.find((x) => x.id === confirmedStall.run.module);
+      let paths = 0;
+      for (const op of confirmedStall.run.ops || []) if (op.parser && m && m.P[op.parser]) paths = Math.max(paths, denseFeature(m.id, m.P[op.parser]));
+      if (paths >= 100000) {
+        console.log(`NOTE: seen while checking C16: known finding property=C13 a print of run ${confirmedStall.index} (module ${confirmedStall.run.module}) does not return within 30 s; one of its parsers reaches ${paths >= 200000 ? "more than 200000" : paths} simple paths through its named types [KF-C13-1]`);
+        confirmedStall = null;
+      }
+    } catch {}
+  }
   if (confirmedStall) {
     agg.n++;
     agg.viol.set("call-never-returns", { index: -2, v: { property: prop, class: "call-never-returns", detail: { run_index: confirmedStall.index, limit_s: 30 } }, run: confirmedStall.run });
